@@ -557,16 +557,24 @@ func (loc *Location) GetFact(ctx *Context, id string) (Map, error) {
 var AncestorLoop = errors.New("ancestor loop detected")
 
 // DoAncestors calls the given function on this location and all of its ancestors in depth-first order.
+//
+// A location that is reached along more than one chain of parents is
+// visited once.
 func (loc *Location) DoAncestors(ctx *Context, fn func(*Location) error) error {
-	return loc.doAncestors(ctx, fn, make(map[string]bool))
+	return loc.doAncestors(ctx, fn, make(map[string]bool), make(map[string]bool))
 }
 
 // doAncestors does the work for DoAncestors.  The names of the
 // locations on the current path are given by 'path' in order to
-// detect a chain of parents that loops back.
-func (loc *Location) doAncestors(ctx *Context, fn func(*Location) error, path map[string]bool) error {
+// detect a chain of parents that loops back.  The names of the
+// locations that have been visited (with their ancestors) are given
+// by 'done'.
+func (loc *Location) doAncestors(ctx *Context, fn func(*Location) error, path map[string]bool, done map[string]bool) error {
 	if path[loc.Name] {
 		return AncestorLoop
+	}
+	if done[loc.Name] {
+		return nil
 	}
 	path[loc.Name] = true
 	defer delete(path, loc.Name)
@@ -601,12 +609,13 @@ func (loc *Location) doAncestors(ctx *Context, fn func(*Location) error, path ma
 			if err != nil {
 				return err
 			}
-			if err = p.doAncestors(ctx, fn, path); err != nil {
+			if err = p.doAncestors(ctx, fn, path, done); err != nil {
 				return err
 			}
 		}
 	}
 
+	done[loc.Name] = true
 	return fn(loc)
 }
 
